@@ -32,7 +32,8 @@ MetricVecsOf(k, CP) ==
         d \in {0, 1, 7}, c \in {0, 2}, r \in {0, 3}, a \in {0, 4}, u \in {0, 5}, i \in {0, 6}, cn \in {0, 2},
         cf \in BOOLEAN, p \in BOOLEAN, f \in BOOLEAN, fl \in BOOLEAN,
         cp \in CP }
-MetricVecs == MetricVecsOf("eds", {"none", "true", "false", "falseReason"}) \cup MetricVecsOf("ers", {"none"})
+\* (for a replica set the field describes its Canary-Failed condition: absent, True, or present with status False)
+MetricVecs == MetricVecsOf("eds", {"none", "true", "false", "falseReason"}) \cup MetricVecsOf("ers", {"none", "true", "false"})
 
 Space == { LabelVec(M) : M \in AllMaps } \cup MetricVecs
 
